@@ -1,0 +1,92 @@
+//! Verification hooks.
+//!
+//! Only compiled with the cargo feature `verif-hooks`, which is off by default.
+//! The hooks report internal state transitions to a thread local sink, so that
+//! an external monitor can shadow the protocol state while driving the public API.
+//! Nothing in here changes the behavior of the crate.
+
+use std::cell::RefCell;
+
+/// An observation made inside the crate.
+#[derive(Debug, Clone, PartialEq, Eq)]
+pub enum Event {
+    /// A `Flow` was wrapped in a (new) type state.
+    FlowState {
+        /// Name of the type state, such as `RecvResponse`.
+        state: &'static str,
+        /// Name of the variant of the type erased call holder.
+        holder: &'static str,
+        /// For holders with a body writer: `(has_body, is_chunked, is_ended)`.
+        writer: Option<(bool, bool, bool)>,
+        /// Whether the flow intends to send a request body.
+        should_send_body: bool,
+        /// Whether the flow is (still) waiting for a 100-continue.
+        await_100: bool,
+        /// Names of the recorded reasons to close the connection.
+        close_reasons: Vec<&'static str>,
+    },
+    /// One iteration of an internal loop.
+    Tick {
+        /// Which loop.
+        site: &'static str,
+    },
+    /// The chunked decoder moved between states.
+    Dechunk {
+        /// State before.
+        from: &'static str,
+        /// State after.
+        to: &'static str,
+    },
+    /// Where the request head writer stands after a write.
+    Phase {
+        /// Name of the phase.
+        name: &'static str,
+        /// Index of the next header to write (when sending headers).
+        index: usize,
+    },
+    /// A truncated redirect response was accepted as complete.
+    PartialRedirect,
+}
+
+type Sink = Box<dyn FnMut(&Event)>;
+
+thread_local! {
+    static SINK: RefCell<Option<Sink>> = const { RefCell::new(None) };
+}
+
+/// Install a sink for the current thread. Replaces any previous sink.
+pub fn set_sink(sink: impl FnMut(&Event) + 'static) {
+    SINK.with(|s| *s.borrow_mut() = Some(Box::new(sink)));
+}
+
+/// Remove the sink of the current thread.
+pub fn clear_sink() {
+    SINK.with(|s| *s.borrow_mut() = None);
+}
+
+pub(crate) fn emit(event: Event) {
+    // The sink is taken out of the cell while it runs (it may call back into the
+    // crate), and put back afterwards, also when it panics to report a violation.
+    struct Restore<'a>(&'a RefCell<Option<Sink>>, Option<Sink>);
+
+    impl<'a> Drop for Restore<'a> {
+        fn drop(&mut self) {
+            let mut slot = self.0.borrow_mut();
+            if slot.is_none() {
+                *slot = self.1.take();
+            }
+        }
+    }
+
+    SINK.with(|s| {
+        let taken = s.borrow_mut().take();
+        let mut restore = Restore(s, taken);
+        if let Some(sink) = restore.1.as_mut() {
+            sink(&event);
+        }
+    });
+}
+
+pub(crate) fn tick(site: &'static str) {
+    emit(Event::Tick { site });
+}
